@@ -271,7 +271,7 @@ func (x *mexec) run(pos int) pr {
 			x.last[len(x.last)-1] = lastRes{r.val, r.err}
 			e := x.emitAttempt(pol, pos, "OnRetryScheduled", r.val, r.err)
 			e.HasDelay = true
-			if in.CancelInScheduled && !mw.NoListeners {
+			if in.CancelInScheduled && !mw.NoListeners && !in.Muted("OnRetryScheduled") {
 				x.rootCancelled = true
 			}
 			if c, cr := x.cancelledAt(pos); c {
